@@ -5,7 +5,7 @@ TRUST = ["blocks()/value()/num_vars() are the trusted projection of a table",
          "harness-side packing of on-sets into blocks (from_blocks is a setup step)",
          "TLC evaluates the specification correctly"]
 
-CTORS = ["zero", "one", "default", "parity", "majority", "nth_var", "threshold", "equals", "symmetric"]
+CTORS = ["zero", "one", "default", "parity", "majority", "nth_var", "threshold", "equals", "symmetric", "consts"]
 
 
 def KMC(parts):
@@ -31,17 +31,51 @@ def P(strict_ops, rule=None, **kw):
     return d
 
 
+def c04_library_order(viols, profile, log):
+    """C04 speaks of the smallest table 'in the library's own ordering'.  The specification computes the
+    numeric minimum m; when the returned representative r differs from it, the library itself is asked
+    for r.cmp(m): the event is a C04 violation only if the library says m < r."""
+    import json
+    import os
+    import subprocess
+    from . import main
+    exe = os.path.join(main.HARNESS, "target", profile, "vdrive")
+    kept = []
+    for v in viols:
+        if v["why"] != "not the orbit minimum" or not v.get("queries"):
+            kept.append(v)
+            continue
+        ev = v["event"]
+        m = v["queries"][0][2]
+        res = [p for p in ev["post"] if p["s"] == ev["d"] and "t" in p]
+        if not res:
+            kept.append(v)
+            continue
+        t = res[0]["t"]
+        r = t.get("val", [x for x in t["on"] if x < (1 << t["n"])])
+        out = subprocess.run([exe, "cmp", ev["ty"], str(t["n"]), json.dumps(r), json.dumps(m)],
+                             capture_output=True, text=True).stdout.strip().strip('"')
+        if out == "gt":
+            kept.append(v)
+        else:
+            log("  (line %d: the library orders its result %s the numeric minimum: an ordering matter (C08), not reported here)"
+                % (v["line"], {"lt": "below", "eq": "equal to"}.get(out, out)))
+    return kept
+
+
 PROPS = {
-    "C01": P(["logic"], mc=KMC(["logic"]), machine_ops=["logic"], rule="every syntactic form of NOT/AND/OR/XOR on structured and random operand pairs for n = 0..14; "
+    "C01": P(["logic", "consts"], mc=KMC(["logic"]), machine_ops=["logic"], rule="every syntactic form of NOT/AND/OR/XOR on structured and random operand pairs for n = 0..14; "
              "all pairs x forms for n <= 2 (n = 3 thorough); distinct = distinct (form, operands) content"),
-    "C02": P([], mc=KMC(["transforms", "text"]), rule="random call histories (30 calls) over constructors, parser, operators, transforms, cofactoring, mutators, "
+    "C02": P([], mc=KMC(["transforms", "text"]),
+             machine_ops=["zero", "one", "parity", "majority", "nth_var", "threshold", "equals", "logic", "flip", "swap",
+                          "swapadj", "fromcof", "setbit", "vnext"], rule="random call histories (30 calls) over constructors, parser, operators, transforms, cofactoring, mutators, "
              "canonization, successor; every produced table checked for well-formedness, ==/hash/cmp observations and "
              "a value()-rebuilt twin of random slots compared with the original"),
-    "C03": P(["flip", "swap", "swapadj", "cofactors", "fromcof"], mc=KMC(["transforms"]),
+    "C03": P(["flip", "swap", "swapadj", "cofactors", "fromcof", "consts"], mc=KMC(["transforms"]),
              machine_ops=["flip", "swap", "swapadj", "fromcof"],
              rule="for every n = 1..14 and every index (pair) one structured or random table, copying and in-place forms; "
              "thorough: every table of n <= 4"),
-    "C04": P(["canon"], mc=[{"module": "MC_Canon.tla", "cfg": "MC_Canon_q.cfg", "only": "quick"},
+    "C04": P(["canon"], post_filter=c04_library_order, mc=[{"module": "MC_Canon.tla", "cfg": "MC_Canon_q.cfg", "only": "quick"},
                             {"module": "MC_Canon.tla", "cfg": "MC_Canon_t.cfg", "tier": "thorough", "workers": 16}],
              rule="canonization calls with the walk hook; exact orbit minimum by enumeration in the specification",
              chunk_weight=2500),
@@ -49,7 +83,7 @@ PROPS = {
                             {"module": "MC_Canon.tla", "cfg": "MC_Canon_t.cfg", "tier": "thorough", "workers": 16}],
              rule="canonization certificates applied by the specification's ApplyCert; every representative fed back",
              chunk_weight=6000),
-    "C06": P(["decomp", "unate"], mc=KMC(["decomp"]), machine_ops=["decomp"], rule="every variable of structured, cofactor-structured and one-bit-off tables, n = 1..12"),
+    "C06": P(["decomp", "unate", "consts"], mc=KMC(["decomp"]), machine_ops=["decomp"], rule="every variable of structured, cofactor-structured and one-bit-off tables, n = 1..12"),
     "C07": P(["bdd"], machine_ops=["bdd"],
              mc=[{"module": "MC_Bdd.tla", "cfg": "MC_Bdd_K2_q.cfg", "only": "quick"},
                  {"module": "MC_Bdd.tla", "cfg": "MC_Bdd_K2_t.cfg", "tier": "thorough", "workers": 16},
